@@ -392,10 +392,12 @@ class FunctionReference:
             if memento_fn is not None and memento_fn.fn is not None
             else self._module + ":" + self._function_name
         )
-        if version is not None:
-            qualified_name += "#" + version
+        # Note: the cluster prefix is decided before the version is appended, since an
+        # explicit version string may itself contain "::"
         if cluster_name is not None and "::" not in qualified_name:
             qualified_name = cluster_name + "::" + qualified_name
+        if version is not None:
+            qualified_name += "#" + version
         self._qualified_name = qualified_name
 
         self._qualified_name_without_cluster = (
@@ -443,7 +445,7 @@ class FunctionReference:
 
         # Parse information from the string
         match = re.match(
-            r"((?P<cluster>.*)::)?(?P<module>.*):(?P<function>[^#]*)(#(?P<version>.*))?",
+            r"((?P<cluster>[^#]*?)::)?(?P<module>[^:#]*):(?P<function>[^#]*)(#(?P<version>.*))?",
             qualified_name,
         )
         if not match:
